@@ -545,8 +545,20 @@ class Compiler:
         function = function(self.context, operands)
         # Constants folding.
         if all(isinstance(operand, EvalConstant) for operand in operands) and function.pure:
-            return EvalConstant(function(None), function.dtype)
+            return self._fold(function)
         return function
+
+    @staticmethod
+    def _fold(function):
+        # Evaluate an expression with constant operands at compile time.
+        # When the evaluation fails, as it may for data dependent errors,
+        # keep the expression: the error is raised if and when a row is
+        # evaluated, like it is for non constant operands.
+        try:
+            value = function(None)
+        except Exception:
+            return function
+        return EvalConstant(value, function.dtype)
 
     @_compile.register
     def _subscript(self, node: ast.Subscript):
@@ -625,7 +637,7 @@ class Compiler:
                     function = op(left, right)
                     # Constants folding.
                     if isinstance(left, EvalConstant) and isinstance(right, EvalConstant):
-                        return EvalConstant(function(None), function.dtype)
+                        return self._fold(function)
                     return function
 
             # Implement type inference when one of the operands is not strongly typed.
